@@ -354,7 +354,15 @@ func (g *wgen) record(depth int) *asch {
 	g.nrec++
 	rec := &asch{kind: "record", recName: fmt.Sprintf("R%d", g.nrec)}
 	for i := 0; i < n; i++ {
-		rec.names = append(rec.names, fmt.Sprintf("f%d", i))
+		name := fmt.Sprintf("f%d", i)
+		// names that differ only in case are different Avro names: field selection is by exact name
+		if i > 0 && g.rng.Intn(6) == 0 {
+			name = "F" + rec.names[i-1][1:]
+			if rec.names[i-1][0] == 'F' {
+				name = fmt.Sprintf("f%d", i)
+			}
+		}
+		rec.names = append(rec.names, name)
 		rec.fields = append(rec.fields, g.schema(depth+1))
 	}
 	return rec
